@@ -300,6 +300,11 @@ class IVFCHashTree:
                 level_fp.seek(offset)
                 level_fp.write(data)
 
+                # the verification results of the written blocks are no longer current
+                for x in range(starting_block, ending_block + 1):
+                    self._valid_results_cache[level_index].pop(x, None)
+                    self._deep_valid_results_cache[level_index].pop(x, None)
+
                 level_fp.seek(starting_block * level_data.block_size)
 
                 for x in range(starting_block, ending_block + 1):
